@@ -112,3 +112,19 @@ Fixpoint reg_actions (acts : list kaction) : list action :=
   end.
 
 End WithShape.
+
+(** ** An unmap from outside the connection's own thread (the seeded change C15-g)
+
+    [Server.dial] -- the front path -- calling [unmap(name, ep)] for an
+    endpoint whose dial answered with an error: the registry step of
+    [AUnmap], taken while the connection is still serving. *)
+Definition front_unmap (s : state) (t : N) : state :=
+  match get t (threads s) with
+  | Some th =>
+      let r := match get (th_name th) (reg s) with
+               | Some t' => if t' =? t then del (th_name th) (reg s) else reg s
+               | None => reg s
+               end in
+      mkState (threads s) r (ups s) (log s)
+  | None => s
+  end.
